@@ -28,6 +28,8 @@ type Case struct {
 	Entry  string                 `json:"entry"` // do | execute | plan
 	Reuse  int                    `json:"reuse"` // plan: number of executions of the same plan
 	Mutate bool                   `json:"mutate"`
+	// list variable values are handed to the library as typed Go slices ([]string, [][]int, …) instead of []interface{}
+	TypedSlices bool `json:"typedSlices,omitempty"`
 }
 
 type modelResp struct {
@@ -195,10 +197,7 @@ func RunReal(c *Case, doc *ast.Document, built *gq.Built, rt *Runtime, ctxTag in
 			obs = Observed{Class: "panic", ErrMsgs: []string{fmt.Sprint(r)}}
 		}
 	}()
-	vars := map[string]interface{}{}
-	for k, v := range c.Vars {
-		vars[k] = gq.FromWire(v)
-	}
+	vars, _ := c.goVars()
 	ctx := context.WithValue(context.Background(), ctxKey{}, ctxTag)
 	var res *graphql.Result
 	before := planMisses()
@@ -599,6 +598,7 @@ func GenCase(r *hx.Rng, m Mode) *Case {
 		c.Reuse = r.Range(2, 4)
 		c.Mutate = true
 	}
+	c.TypedSlices = r.Chance(1, 2) // last draw of the case: list variables as typed Go slices
 	return c
 }
 
@@ -667,10 +667,7 @@ func One(run *hx.Run, drv *hx.Driver, m Mode, c *Case) {
 				for i := 0; i < c.Reuse; i++ {
 					rt.Reset()
 					rt.Mutate = c.Mutate
-					vars := map[string]interface{}{}
-					for k, v := range c.Vars {
-						vars[k] = gq.FromWire(v)
-					}
+					vars, _ := c.goVars()
 					func() {
 						defer func() {
 							if r := recover(); r != nil {
@@ -770,6 +767,12 @@ func One(run *hx.Run, drv *hx.Driver, m Mode, c *Case) {
 	if isMut {
 		run.Tag("mutation")
 	}
+	if c.Schema.Mutation != nil && *c.Schema.Mutation == c.Schema.Query {
+		run.Tag("sharedRootObject")
+		if isMut && len(topLevelOrder(mr.Log)) >= 2 && worldHasThunk(c.World) {
+			run.Tag("sharedRootObject:mutation-2+-top-level-fields-with-thunks")
+		}
+	}
 	if len(mr.ErrPaths) > 0 {
 		run.Tag("has-field-errors")
 	}
@@ -799,6 +802,9 @@ func One(run *hx.Run, drv *hx.Driver, m Mode, c *Case) {
 	}
 	if c.Reuse > 1 {
 		run.Tag("plan-reused")
+	}
+	if _, made := c.goVars(); made > 0 {
+		run.Tag("typedSliceVars")
 	}
 	nontrivial := len(mr.Log) >= 2 && (len(mr.ErrPaths) > 0 || strings.Contains(c.Query, "...") || strings.Contains(c.Query, "@"))
 	run.Case(c.Query+"|"+hx.Canon(c.Vars)+"|"+hx.Canon(c.World)+"|"+c.Entry, nontrivial,
